@@ -135,9 +135,101 @@ func (s *SchedulerImpl) removeAllWfFromBarrierBuffer'''),
 	}''', '''	if cu.isLastRead(req) {
 		cu.logInstTask(wf, info.Inst, true)
 	}'''),
+ # --- release of a barrier by an ending wavefront (early exits; w_c14/earlyexit.go)
+ 'end-release-predicate-rejects-completed-others': (SCHED, '''		if wf == currWf {
+			continue
+		}
+
+		if wf.State != wavefront.WfAtBarrier &&
+			wf.State != wavefront.WfCompleted {
+			return false
+		}
+	}
+
+	return true
+}
+
+func (s *SchedulerImpl) resetRegisterValue''', '''		if wf == currWf {
+			continue
+		}
+
+		// The all-completed case has been handled by the caller already.
+		if wf.State != wavefront.WfAtBarrier {
+			return false
+		}
+	}
+
+	return true
+}
+
+func (s *SchedulerImpl) resetRegisterValue'''),
+ 'end-releases-only-if-last-in-list': (SCHED, '	if s.areAllOtherWfsInWGAtBarrier(wf.WG, wf) {',
+  '	if wf == wf.WG.Wfs[len(wf.WG.Wfs)-1] && s.areAllOtherWfsInWGAtBarrier(wf.WG, wf) {'),
+ 'end-release-predicate-break-instead-of-continue': (SCHED, '''		if wf == currWf {
+			continue
+		}
+
+		if wf.State != wavefront.WfAtBarrier &&
+			wf.State != wavefront.WfCompleted {''', '''		if wf == currWf {
+			break
+		}
+
+		if wf.State != wavefront.WfAtBarrier &&
+			wf.State != wavefront.WfCompleted {'''),
+ 'end-release-keeps-released-in-internal-executing': (SCHED, '''				s.removeReleasedWfFromInternalExecuting(
+					executing.WG, &newExecuting)''', '''				_ = newExecuting'''),
+ 'end-release-predicate-tolerates-two-completed': (SCHED, '''		if wf == currWf {
+			continue
+		}
+
+		if wf.State != wavefront.WfAtBarrier &&
+			wf.State != wavefront.WfCompleted {
+			return false
+		}
+	}
+
+	return true
+}
+
+func (s *SchedulerImpl) resetRegisterValue''', '''		if wf == currWf {
+			continue
+		}
+
+		if wf.State == wavefront.WfCompleted {
+			completed++
+		}
+
+		if wf.State != wavefront.WfAtBarrier &&
+			(wf.State != wavefront.WfCompleted || completed > 2) {
+			return false
+		}
+	}
+
+	return true
+}
+
+func (s *SchedulerImpl) resetRegisterValue'''),
 }
 
 EXTRA = {
+ 'end-release-predicate-tolerates-two-completed': (SCHED, '''	currWf *wavefront.Wavefront,
+) bool {
+	for _, wf := range wg.Wfs {
+		if wf == currWf {
+			continue
+		}
+
+		if wf.State == wavefront.WfCompleted {
+			completed++''', '''	currWf *wavefront.Wavefront,
+) bool {
+	completed := 0
+	for _, wf := range wg.Wfs {
+		if wf == currWf {
+			continue
+		}
+
+		if wf.State == wavefront.WfCompleted {
+			completed++'''),
  'lds-write-lands-late': (LDS, '''	toWrite   *wavefront.Wavefront
 	cycleLeft int
 ''', '''	toWrite   *wavefront.Wavefront
